@@ -842,3 +842,29 @@ func VerifQueueFlushTail() {
 	s.checkCounters("after the drain")
 	verifReach("end")
 }
+
+// VerifQueueEmptyEvent (C17): an event of zero bytes (Writer.Next without Write)
+// among ordinary events.  C05 quantifies over sizes from 1 byte; the counters of
+// C17 have no such restriction.
+func VerifQueueEmptyEvent() {
+	s := newQ(64, 0)
+	pos := verifChoose(3) // the empty event is the first, the middle or the last one
+	for e := 0; e < 3; e++ {
+		n := 1 + 10*e
+		if e == pos {
+			n = 0
+		}
+		verifAssert(s.appendEvent(n, 1), "append succeeds")
+	}
+	verifAssert(s.flush(), "Flush succeeds")
+	s.checkCounters("after the flush")
+	s.readEvents(4, 4096)
+	verifAssert(s.read == len(s.events), "every flushed event was delivered exactly once, in order")
+	verifAssert(s.r.Begin() == nil, "Reader.Begin succeeds")
+	avail, aerr := s.r.Available()
+	verifAssert(aerr == nil && avail == 0, "Reader.Available == 0 after every event was consumed")
+	s.r.Done()
+	s.ack(3)
+	s.checkCounters("after the ACK")
+	verifReach("end")
+}
